@@ -13,8 +13,23 @@ BOUND = [0, 1, 23, 24, 255, 256, 65535, 65536, 2 ** 32 - 1, 2 ** 32, 2 ** 64 - 1
 def hx(b): return b.hex() if b else '-'
 
 
+def final(t):
+    """trees modified in place after construction denote their final state:
+    ('R', n, old, new)  a tag built around `old`, then re-pointed to `new` with cbor_tag_set_item     -> ('G', n, new)
+    ('b2'|'t2', old, new)  a string whose handle is set twice on the same block                      -> ('b'|'t', new)
+    ('>', old, new)  (only as an array member) pushed `old`, then replaced in place by `new`           -> new"""
+    k = t[0]
+    if k == 'R': return ('G', t[1], t[3])
+    if k in ('b2', 't2'): return (k[0], t[2])
+    if k == '>': return final(t[2])
+    return t
+
+
 def fmt(t):
     k = t[0]
+    if k == 'R': return 'R(%d,%s,%s)' % (t[1], fmt(t[2]), fmt(t[3]))
+    if k in ('b2', 't2'): return '%s(%s>%s)' % (k[0], hx(t[1]), hx(t[2]))
+    if k == '>': return fmt(t[1]) + '>' + fmt(t[2])
     if k in 'un': return '%s%d(%d)' % (k, t[1], t[2])
     if k in 'bt': return '%s(%s)' % (k, hx(t[1]))
     if k in 'BT': return '%s[%s]' % (k, ','.join('%s(%s)' % (k.lower(), hx(c)) for c in t[1]))
@@ -28,7 +43,7 @@ def fmt(t):
 
 def plain(t):
     """the text print_item / fmtItem prints (no flags, shared members expanded)"""
-    k = t[0]
+    t = final(t); k = t[0]
     if k in 'Aa':
         xs = []
         for x in t[1]: xs += [plain(x[0])] * (2 if x[1] else 1)
@@ -53,7 +68,7 @@ def f32_to_half(bits):
 
 def enc(t):
     """reference RFC 8949 encoding (independent of the Lean Spec; the two are compared in the oracle)"""
-    k = t[0]
+    t = final(t); k = t[0]
     if k in 'un':
         mt = 0 if k == 'u' else 1; w, v = t[1], t[2]
         if w == 8: return gen.head(mt, v, v if v < 24 else 24)
@@ -82,7 +97,7 @@ def enc(t):
 
 def norm(t):
     """the tree a decoder returns for enc(t): NaNs canonical, shared members expanded, flags dropped"""
-    k = t[0]
+    t = final(t); k = t[0]
     if k in 'Aa':
         xs = []
         for x in t[1]: xs += [(norm(x[0]), False)] * (2 if x[1] else 1)
@@ -99,7 +114,7 @@ def norm(t):
 
 
 def depth(t):
-    k = t[0]
+    t = final(t); k = t[0]
     if k in 'Aa': return (0 if (k == 'A' and not t[1]) else 1 + max([depth(x[0]) for x in t[1]] + [0]))
     if k in 'Mm': return (0 if (k == 'M' and not t[1]) else 1 + max([max(depth(x[0]), depth(x[1])) for x in t[1]] + [0]))
     if k == 'G': return 1 + depth(t[2])
@@ -190,6 +205,21 @@ def corpus(tier, rng, assigned_only=True):
         out.append(('b', bytes(n)))
     out.append(('M', [(one, one, False)] * 256, ''))
     out.append(('a', [(one, False)] * 300, ''))
+    # trees modified in place after construction (only the construction API can make these): re-pointed tags, strings whose handle is set a
+    # second time on the same block with another length, array members replaced after being pushed - alone and nested
+    mods = []
+    lv = [('u', 8, 7), ('n', 16, 300), ('t', b'abc'), ('b', b''), ('d', 0x3ff8000000000000), ('s', 1000000), ('A', [(('u', 8, 1), False)], ''), ('T', [b'ab', b''])]
+    for i, a in enumerate(lv):
+        b = lv[(i + 3) % len(lv)]
+        mods.append(('R', [0, 24, 1000000][i % 3], a, b))
+        mods.append(('A', [(('>', a, b), False), (one, False)], '+' if i % 2 else ''))
+        mods.append(('a', [(one, False), (('>', a, b), False), (('>', b, a), False)], ''))
+    for old, new in ((b'abcdefghijklmnopqrst', b'0123456789'), (b'xy', b'0123456789abcdefghijklmnopqrstuvwxyz'), (b'abc', b''), (b'', b'\xc3\xa9'), (b'\xc3\xa9\xc3', b'ok')):
+        mods.append(('t2', old, new)); mods.append(('b2', old, new))
+        mods.append(('M', [(('t2', old, new), ('b2', new, old), False)], ''))
+        mods.append(('G', 2, ('t2', old, new)))
+    mods.append(('R', 5, ('R', 6, one, ('t', b'x')), ('A', [(('>', one, ('R', 7, one, ('u', 16, 9))), False)], '')))
+    out += mods
     # deep chains
     t = one
     for d in range(40): t = ('G', d, t) if d % 3 == 0 else (('A', [(t, False)], '') if d % 3 == 1 else ('m', [(one, t, False)], ''))
